@@ -133,7 +133,7 @@ def cases(draw, tier="quick"):
     splits = sorted(draw(st.lists(st.floats(0, 1), min_size=nsplit, max_size=nsplit)))
     trailing = draw(st.sampled_from(["none", "none", "none", "zeros512", "zeros7", "garbage"]))
     chunk = draw(st.sampled_from([0, 0, 1, 7, 511, 512, 513, 4096, 65536]))
-    damage = draw(st.lists(st.tuples(st.sampled_from(["trunc", "flip", "zero", "dup"]), st.floats(0, 1), st.integers(0, 255)), min_size=0, max_size=3))
+    damage = draw(st.lists(st.tuples(st.sampled_from(["trunc", "truncm", "flip", "zero", "dup"]), st.floats(0, 1), st.integers(0, 255)), min_size=0, max_size=3))
     o = dict(comp=draw(st.sampled_from(["gzip", "zstd", "lz4"])), B=B, no_keep_time=False, no_xattr=False, no_skip=False, T=False, e=False,
              j=draw(st.sampled_from([None, 1, 2])), defaults={}, source_date_epoch=None)
     # empty members (a compressed stream of zero bytes) at the start / exactly at tar record boundaries, where the reader has used up
@@ -272,6 +272,14 @@ def check_case(case, opts):
         nd = 0
         for kind, frac, val in case["damage"]:
             pos = min(len(comp) - 1, int(frac * len(comp)))
+            if kind == "truncm":
+                # a cut a few bytes into a later member: the decoder has finished whole members before it
+                lens = [len(compress(codec, p_, case["level"])) for p_ in parts]
+                if len(lens) < 2:
+                    continue
+                m = 1 + int(frac * (len(lens) - 1)) % (len(lens) - 1)
+                pos = sum(lens[:m]) + 1 + val % max(1, min(lens[m] - 1, 64))
+                kind = "trunc"
             if kind == "trunc":
                 bad = comp[:pos]
                 if pos == 0:
